@@ -15,23 +15,32 @@ ENGINE = "iso14229-reference"
 TECHNIQUE = (
     "runtime oracle on the real response parsers: re-encode equality (.pdu == received bytes) for every typed result and "
     "field equality against an independent ISO 14229-1 reference decoder, over generated valid responses, exhaustive short "
-    "byte strings and mutated neighbours; stored-form monitor: typed responses (incl. 4096..70000 byte replies) handed to the real "
+    "byte strings and mutated neighbours, through every public parse entry point (UDSResponse.parse_dynamic, <Class>.from_pdu, "
+    "<PositiveClass>.parse_static) on the same byte strings; object-independence monitor: typed results are kept alive with a frozen copy "
+    "of their public attributes and judged again (pdu, attributes) after later responses of the same class were parsed; "
+    "stored-form monitor: typed responses (incl. 4096..70000 byte replies) handed to the real "
     "DBHandler, scan_result.response_pdu / response_data read back from sqlite and compared with the object's pdu / data"
 )
 LEVEL_TEXT = (
-    "Exploration with exhaustive sub-spaces: UDSResponse.parse_dynamic and every concrete response class' from_pdu are run on "
+    "Exploration with exhaustive sub-spaces: UDSResponse.parse_dynamic, every concrete response class' from_pdu and every positive "
+    "response class' parse_static (which also has to handle negative responses) are run on "
     "(a) valid responses of every response kind built from the ISO layouts over field boundaries and record lengths, (b) every "
     "byte string of total length <=2 (quick: plus sampled length 3; thorough: every string of length <=3) for each of the 20 "
-    "response first bytes, (c) truncations, 1..3 byte extensions and all single-bit flips of valid responses. A typed result must "
-    "re-serialise to the received bytes and expose the reference decoder's field values; (d) typed responses of 1..70000 bytes are "
+    "response first bytes, (c) truncations, 1..3 byte extensions and all single-bit flips of valid responses (incl. of 7F sid nrc). A typed result must "
+    "re-serialise to the received bytes and expose the reference decoder's field values - when it is parsed and again at the end of its "
+    "batch (up to 1500 later parses in the same process, one batch per class in the per-class shard), so state shared between "
+    "objects of a class shows in the later object or in the earlier one; (d) typed responses of 1..70000 bytes are "
     "written through DBHandler.insert_scan_result and the stored columns must be the hex form of the object's pdu and data. Held = held on those byte strings."
 )
 LEVEL_NOTE = "Trusted: reference decoder in vf/iso14229.py. Leniency that loses nothing (accepted and re-encoded identically) is counted, not reported."
 RULE = (
     "cases = byte strings fed to the real parsers: reference-built valid responses (boundary field values, records 0..4093 bytes, "
     "0..64 DTC records), exhaustive strings of length <=2 (quick) / <=3 (thorough) per response sid incl. 0x7F, sampled length-3 "
-    "strings, and neighbours (every truncation, extension by 1..3 bytes, every single-bit flip) of the valid ones; non-trivial = the "
-    "parser returned a typed (non-raw) object; distinct = distinct (entry point, byte string)"
+    "strings, and neighbours (every truncation, extension by 1..3 bytes, every single-bit flip) of the valid ones, each through "
+    "parse_dynamic and through from_pdu / parse_static of a class of that response sid (negative responses: NegativeResponse.from_pdu and "
+    "parse_static of any positive class); non-trivial = the "
+    "parser returned a typed (non-raw) object; distinct = distinct (entry point, byte string); evaluations also count the second "
+    "judgement of kept objects"
 )
 ASSUMPTIONS = [
     "reference decoder transcribed from ISO 14229-1 (DESIGN.md appendix A)",
@@ -55,7 +64,12 @@ def shards(tier: str, seed: int) -> list[dict[str, Any]]:
 
 
 def required_reach(tier: str) -> dict[str, int]:
-    return {"#typed:": 30, "outcome.raw": 1, "outcome.exception": 1, "outcome.typed": 1000, "neighbours": 1000, "from_pdu.classes": 30, "stored.rows": 100, "stored.long>4095": 3}
+    return {"#typed:": 30, "outcome.raw": 1, "outcome.exception": 1, "outcome.typed": 1000, "neighbours": 1000, "from_pdu.classes": 30, "stored.rows": 100, "stored.long>4095": 3,
+            # every public entry point returned typed objects; the static one met negative responses of every length class
+            "entry.parse_dynamic.typed": 1000, "entry.from_pdu.typed": 1000, "entry.parse_static.typed": 1000, "parse_static.classes": 30,
+            "parse_static.negative-typed": 100, "parse_static.negative-input.len<3": 100, "parse_static.negative-input.len=3": 100, "parse_static.negative-input.len>3": 100,
+            # objects of one class with different content in one process: the later one judged, the earlier ones judged again afterwards
+            "state.typed-after-other-content-of-same-class": 1000, "state.rechecked-after-later-parse": 1000, "#state.rechecked-class:": 30}
 
 
 # ---- valid response generator (from the ISO layouts) ---------------------------------------------
@@ -176,8 +190,12 @@ def class_tag(b: bytes) -> str:
     return t
 
 
-def check_bytes(ctx: Any, b: bytes, parser: Any, entry: str, service: Any) -> None:
+def check_bytes(ctx: Any, b: bytes, parser: Any, entry: str, service: Any, keep: "Keeper | None" = None) -> None:
     ref = iso.decode_response(b)
+    ek = entry.rsplit(".", 1)[-1]  # parse_dynamic | from_pdu | parse_static
+    if ek == "parse_static" and b[:1] == b"\x7f":
+        # the static entry point hands 7F.. to the negative response parser: which length classes of negative input reached it
+        ctx.reach("parse_static.negative-input.len" + ("<3" if len(b) < 3 else "=3" if len(b) == 3 else ">3"))
     try:
         obj = parser(b)
     except Exception as e:
@@ -195,14 +213,25 @@ def check_bytes(ctx: Any, b: bytes, parser: Any, entry: str, service: Any) -> No
         return
     ctx.reach("outcome.typed")
     ctx.reach(f"typed:{type(obj).__name__}")
+    ctx.reach(f"entry.{ek}.typed")
     ctx.case((entry, b), nontrivial=True)
     cname = type(obj).__name__
+    if ek == "parse_static" and b[0] == 0x7F:
+        ctx.reach("parse_static.negative-typed")
+    first = SEEN_FIRST.setdefault(cname, b)
+    if first != b:
+        ctx.reach("state.typed-after-other-content-of-same-class")  # this object is at least the second of its class in this process
     w = {"entry": entry, "bytes": b, "class": cname}
     try:
         p = obj.pdu
     except Exception as e:
         ctx.violation(f"{cname}/pdu-raises/{type(e).__name__}", f"accepted as {cname} but re-serialising raises", {**w, "error": repr(e)})
+        if keep is not None:
+            keep.add(entry, b, obj, judge_again=False)
         return
+    if keep is not None:
+        # re-serialises correctly now: must still do so after later parses; otherwise only remembered as "parsed later" (see Keeper)
+        keep.add(entry, b, obj, judge_again=p == b)
     if p != b:
         kind = "longer" if len(p) > len(b) else "shorter" if len(p) < len(b) else "same-length"
         # recognisable mechanisms get their own key so that a different normalisation of the same class is still reported
@@ -237,6 +266,75 @@ def check_bytes(ctx: Any, b: bytes, parser: Any, entry: str, service: Any) -> No
             ctx.violation(f"{cname}/field-differs/dtc-and-status", "DTC and status differ from the received bytes", {**w, "got": getattr(obj, "dtc_and_status_record", None)})
 
 
+# ---- objects do not share state -----------------------------------------------------------------
+# The statement holds for every accepted byte string, whatever was parsed before or is parsed afterwards in the same process: the
+# object decoded from X has to expose / re-serialise X also after Y (same class, other content) was decoded, and Y's object Y.
+# Y-after-X is what check_bytes sees anyway (counter state.typed-after-other-content-of-same-class); for X-after-Y every typed object
+# that re-serialised correctly is kept alive together with a frozen copy of its public attributes and judged again at the end of a batch.
+SEEN_FIRST: dict[str, bytes] = {}  # class name -> first byte string this process saw it typed for
+
+
+def freeze(v: Any) -> Any:
+    if isinstance(v, dict):
+        return ("dict", tuple((freeze(k), freeze(x)) for k, x in v.items()))
+    if isinstance(v, (list, tuple)):
+        return (type(v).__name__, tuple(freeze(x) for x in v))
+    if isinstance(v, (set, frozenset)):
+        return ("set", tuple(sorted(repr(x) for x in v)))
+    if isinstance(v, bytearray):
+        return ("bytearray", bytes(v))
+    return v  # int / enum / bytes / str / None: immutable
+
+
+def exposed(obj: Any) -> tuple[tuple[str, Any], ...]:
+    return tuple((k, freeze(v)) for k, v in sorted(vars(obj).items()) if not k.startswith("_") and k != "trigger_request")
+
+
+class Keeper:
+    """keeps (entry, received bytes, object, frozen public attributes) of typed results alive; flush() judges them again"""
+
+    def __init__(self, ctx: Any, limit: int = 1500) -> None:
+        self.ctx, self.limit = ctx, limit
+        self.items: list[tuple[str, bytes, Any, Any]] = []
+
+    def add(self, entry: str, b: bytes, obj: Any, judge_again: bool = True) -> None:
+        self.items.append((entry, b, obj, exposed(obj) if judge_again else None))
+        if len(self.items) >= self.limit:
+            self.flush()
+
+    def flush(self) -> None:
+        ctx = self.ctx
+        later: dict[str, list[bytes]] = {}  # class name -> up to 3 distinct byte strings parsed into that class after the current item
+        for entry, b, obj, snap in reversed(self.items):
+            cname = type(obj).__name__
+            lb = later.setdefault(cname, [])
+            if snap is None:  # did not re-serialise to its bytes when parsed (reported then): only counts as "parsed later"
+                if b not in lb and len(lb) < 3:
+                    lb.append(b)
+                continue
+            others = [x for x in lb if x != b]
+            if others:
+                ctx.reach("state.rechecked-after-later-parse")
+                ctx.reach(f"state.rechecked-class:{cname}")
+            ctx.evals(1)
+            w = {"entry": entry, "bytes": b, "class": cname, "later": others}
+            try:
+                p = obj.pdu
+            except Exception as e:
+                ctx.violation(f"{cname}/earlier-object-changed/pdu-raises/{type(e).__name__}", f"{cname} re-serialised to the received bytes when parsed; after later parses .pdu raises", {**w, "error": repr(e)})
+                p = b
+            if p != b:
+                ctx.violation(f"{cname}/earlier-object-changed/pdu", f"{cname} re-serialised to the received bytes when parsed; after later parses of other responses it re-serialises to other bytes (state shared between objects)", {**w, "got": p})
+            now = exposed(obj)
+            if now != snap:
+                was = dict(snap)
+                changed = sorted(k for k, v in now if was.get(k, "<missing>") != v) or sorted(set(was) - {k for k, _ in now})
+                ctx.violation(f"{cname}/earlier-object-changed/attr:{'+'.join(changed)}", f"public attributes of an earlier {cname} changed while later responses were parsed (state shared between objects)", {**w, "attrs": changed, "now": repr(now)[:300]})
+            if b not in lb and len(lb) < 3:
+                lb.append(b)
+        self.items.clear()
+
+
 def response_classes(service: Any) -> dict[str, type]:
     out = {}
     for name, obj in vars(service).items():
@@ -246,43 +344,89 @@ def response_classes(service: Any) -> dict[str, type]:
     return out
 
 
+class Entries:
+    """the public parse entry points: UDSResponse.parse_dynamic, <Class>.from_pdu and <PositiveClass>.parse_static (the spelling of
+    the typed call sites, e.g. the hsfz / doip discovery) - classes enumerated from the module, grouped by their response sid"""
+
+    def __init__(self, service: Any) -> None:
+        self.dyn = service.UDSResponse.parse_dynamic
+        self.classes = response_classes(service)
+        self.by_sid: dict[int, list[tuple[str, type]]] = {}
+        for name, cls in sorted(self.classes.items()):
+            self.by_sid.setdefault(self.rsid(name, cls), []).append((name, cls))
+        self.static: list[tuple[str, type]] = [(n, c) for n, c in sorted(self.classes.items()) if callable(getattr(c, "parse_static", None))]
+        raw = getattr(service, "RawPositiveResponse", None)
+        if raw is not None and callable(getattr(raw, "parse_static", None)):
+            self.static.append(("RawPositiveResponse", raw))
+
+    @staticmethod
+    def rsid(name: str, cls: Any) -> int:
+        return 0x7F if name in ("NegativeResponse", "RawNegativeResponse") else int(cls.RESPONSE_SERVICE_ID)
+
+    def others(self, rng: random.Random, b: bytes) -> list[tuple[str, Any]]:
+        """class-level entry points for one byte string: from_pdu / parse_static of a class of that response sid (any class when there is none)"""
+        out: list[tuple[str, Any]] = []
+        if b[0] == 0x7F:
+            name, cls = rng.choice(self.by_sid[0x7F])
+            out.append((f"{name}.from_pdu", cls.from_pdu))
+            name, cls = rng.choice(self.static)
+            out.append((f"{name}.parse_static", cls.parse_static))
+            return out
+        name, cls = rng.choice(self.by_sid.get(b[0]) or self.static)
+        out.append((f"{name}.from_pdu", cls.from_pdu))
+        if callable(getattr(cls, "parse_static", None)):
+            out.append((f"{name}.parse_static", cls.parse_static))
+        return out
+
+
 def run(ctx: Any, params: dict[str, Any]) -> None:
     import gallia.command  # noqa: F401
     from gallia.services.uds.core import service
 
     rng = ctx.rng
-    dyn = service.UDSResponse.parse_dynamic
+    ent = Entries(service)
+    dyn = ent.dyn
+    keep = Keeper(ctx)
     mode = params["mode"]
+
+    def all_entries(s: bytes) -> None:
+        check_bytes(ctx, s, dyn, "parse_dynamic", service, keep)
+        for entry, parser in ent.others(rng, s):
+            check_bytes(ctx, s, parser, entry, service, keep)
+
     if mode == "gen":
         for i in range(params["n"]):
             b = gen_valid(rng)
             if iso.decode_response(b) is None and not (b[0] == 0x7F):
                 ctx.violation("harness/generator-invalid", "generator produced bytes its own reference rejects", {"bytes": b})
                 continue
-            check_bytes(ctx, b, dyn, "parse_dynamic", service)
+            all_entries(b)
             if i % 4 == 0:
                 for nb in neighbours(rng, b):
                     ctx.reach("neighbours")
-                    check_bytes(ctx, nb, dyn, "parse_dynamic", service)
+                    if i % 16 == 0:  # the per-class shard runs the class-level entry points on neighbours systematically
+                        all_entries(nb)
+                    else:
+                        check_bytes(ctx, nb, dyn, "parse_dynamic", service, keep)
             if i % 500 == 0:
                 ctx.sample({"valid_response": b})
             if ctx.out_of_time():
                 break
     elif mode == "short":
         for fb in params["firsts"]:
-            check_bytes(ctx, bytes([fb]), dyn, "parse_dynamic", service)
+            all_entries(bytes([fb]))
             for x in range(256):
-                check_bytes(ctx, bytes([fb, x]), dyn, "parse_dynamic", service)
+                all_entries(bytes([fb, x]))
             for _ in range(params["len3_samples"]):
-                check_bytes(ctx, bytes([fb, rng.randrange(256), rng.randrange(256)]), dyn, "parse_dynamic", service)
+                all_entries(bytes([fb, rng.randrange(256), rng.randrange(256)]))
             ctx.reach("exhaustive.len<=2.firstbytes")
     elif mode == "exh3":
         fb = params["first"]
-        check_bytes(ctx, bytes([fb]), dyn, "parse_dynamic", service)
+        all_entries(bytes([fb]))
         for x in range(256):
-            check_bytes(ctx, bytes([fb, x]), dyn, "parse_dynamic", service)
+            all_entries(bytes([fb, x]))
             for y in range(256):
-                check_bytes(ctx, bytes([fb, x, y]), dyn, "parse_dynamic", service)
+                all_entries(bytes([fb, x, y]))
         ctx.reach("exhaustive.len<=3.firstbytes")
     elif mode == "stored":
         replies = [gen_valid(rng) for _ in range(params["n"])]
@@ -291,25 +435,47 @@ def run(ctx: Any, params: dict[str, Any]) -> None:
         rng.shuffle(replies)
         stored_form(ctx, replies, service)
     elif mode == "classes":
-        # every concrete response class' own from_pdu on valid responses of its service id and their neighbours
-        classes = response_classes(service)
+        # every concrete response class' own from_pdu and parse_static on valid responses of its service id and their neighbours;
+        # parse_static additionally on negative responses and their neighbours (it is documented to return those as well).
+        # One batch of kept objects per class: many objects of the same class with different content, judged again at the end.
+        classes = ent.classes
         ctx.reach("from_pdu.classes", len(classes))
-        ctx.sample({"response_classes": sorted(classes)})
+        ctx.reach("parse_static.classes", len(ent.static))
+        ctx.sample({"response_classes": sorted(classes), "parse_static_classes": [n for n, _ in ent.static]})
         pool: dict[int, list[bytes]] = {}
         for _ in range(params["n"] * 20):
             b = gen_valid(rng)
             pool.setdefault(b[0], []).append(b)
-        for name, cls in sorted(classes.items()):
-            rsid = 0x7F if name == "NegativeResponse" else cls.RESPONSE_SERVICE_ID
-            cands = pool.get(rsid, [])
+        todo = dict(classes)
+        todo.update(dict(ent.static))
+        for name, cls in sorted(todo.items()):
+            points = [(f"{name}.from_pdu", cls.from_pdu)]
+            static = getattr(cls, "parse_static", None)
+            if callable(static):
+                points.append((f"{name}.parse_static", static))
+            if name in classes:
+                cands = pool.get(ent.rsid(name, cls), [])
+            else:  # RawPositiveResponse: any positive response
+                cands = [rng.choice(pool[k]) for k in rng.choices(sorted(k for k in pool if k != 0x7F), k=params["n"])]
             rng.shuffle(cands)
             for b in cands[: params["n"]]:
-                check_bytes(ctx, b, cls.from_pdu, f"{name}.from_pdu", service)
-                if rng.random() < 0.1:
-                    for nb in neighbours(rng, b):
-                        check_bytes(ctx, nb, cls.from_pdu, f"{name}.from_pdu", service)
+                with_nb = rng.random() < 0.1
+                for entry, parser in points:
+                    check_bytes(ctx, b, parser, entry, service, keep)
+                    if with_nb:
+                        for nb in neighbours(rng, b):
+                            check_bytes(ctx, nb, parser, entry, service, keep)
+            if callable(static):
+                negs = pool.get(0x7F, [])
+                for b in rng.sample(negs, min(len(negs), max(40, params["n"] // 8))):
+                    check_bytes(ctx, b, static, f"{name}.parse_static", service, keep)
+                    if rng.random() < 0.25:
+                        for nb in neighbours(rng, b):
+                            check_bytes(ctx, nb, static, f"{name}.parse_static", service, keep)
+            keep.flush()
             if ctx.out_of_time():
                 break
+    keep.flush()
 
 
 LONG_LENGTHS = [20, 21, 255, 4093, 4094, 4095, 4096, 4097, 8190, 8191, 20000, 70000]
@@ -387,7 +553,11 @@ def replay(ctx: Any, witness: dict[str, Any]) -> None:
         return
     entry = witness.get("entry", "parse_dynamic")
     if entry == "parse_dynamic":
-        check_bytes(ctx, b, service.UDSResponse.parse_dynamic, entry, service)
+        parser = service.UDSResponse.parse_dynamic
     else:
-        cls = getattr(service, entry.split(".")[0])
-        check_bytes(ctx, b, cls.from_pdu, entry, service)
+        parser = getattr(getattr(service, entry.split(".")[0]), entry.split(".")[1])
+    keep = Keeper(ctx)
+    check_bytes(ctx, b, parser, entry, service, keep)
+    for later in witness.get("later", []):  # earlier-object-changed: the later responses of the same class, then judge the first again
+        check_bytes(ctx, bytes.fromhex(later[4:]), parser, entry, service, keep)
+    keep.flush()
